@@ -21,8 +21,10 @@ ORACLES = {
         'stdlib::py_mod_f64': ['stdlib::py_mod_f64'],
         'stdlib::py_floor_div_f64': ['stdlib::py_floor_div_f64'],
         'stdlib::py_mod': ['stdlib::py_mod'], 'stdlib::py_floor_div': ['stdlib::py_floor_div'], 'stdlib::py_div': ['stdlib::py_div'],
+        'emit::determine_binop_plan': ['incan::binop_plan'], 'emit::emit_binop_token': ['incan::binop_plan'],
         '*': ['core::py_mod_i64_impl', 'core::py_floor_div_i64_impl', 'stdlib::py_mod_i64', 'stdlib::py_floor_div_i64', 'stdlib::py_mod',
-              'stdlib::py_floor_div', 'stdlib::py_div', 'core::py_mod_f64_impl', 'stdlib::py_mod_f64', 'stdlib::py_floor_div_f64'],
+              'stdlib::py_floor_div', 'stdlib::py_div', 'core::py_mod_f64_impl', 'stdlib::py_mod_f64', 'stdlib::py_floor_div_f64',
+              'incan::binop_plan'],
     },
     'C05': {
         'core::str_len': ['core::str_char_at', 'core::str_slice'],
@@ -40,7 +42,14 @@ ORACLES = {
         '*': ['core::str_char_at', 'core::str_slice', 'stdlib::str_index', 'stdlib::str_slice', 'stdlib::list_get', 'stdlib::list_get_mut',
               'stdlib::list_slice', 'stdlib::dict_get', 'stdlib::range'],
     },
-    'C07': {'*': ['core::policy']},
+    'C07': {
+        'adapters::extract_int_literal': ['incan::exponent_kind'], 'adapters::pow_exponent_kind_from_ast': ['incan::exponent_kind'],
+        'adapters::pow_exponent_kind_from_ir': ['incan::exponent_kind', 'incan::binop_plan'],
+        'lowering::extract_int_literal': [], 'lowering::pow_exponent_kind': [],
+        'emit::determine_binop_plan': ['incan::binop_plan'], 'emit::emit_binop_token': ['incan::binop_plan'],
+        'checker::check_binary': ['incan::static_type'],
+        '*': ['core::policy', 'incan::exponent_kind', 'incan::binop_plan', 'incan::static_type'],
+    },
     'C19': {
         'lsp::offset_to_position': ['lsp::offset_to_position', 'lsp::round_trip', 'lsp::monotone', 'lsp::span_to_range'],
         'lsp::position_to_offset': ['lsp::position_to_offset', 'lsp::round_trip'],
@@ -188,6 +197,27 @@ def run_pins(pid, pins, root):
             v['oracle'] = oracle
             bad.append(v)
     return ok, bad
+
+
+def run_bounded(pid, items, root):
+    """exhaustive small enumerations on the real code; returns list of rows, each possibly with a counterexample"""
+    skip = ','.join(known_classes(root, pid))
+    rows = []
+    for it in items:
+        exe = build(root, crate_for(it['oracle']))
+        if not exe:
+            rows.append({'oracle': it['oracle'], 'error': 'driver build failed (does /repo still compile?)'})
+            continue
+        v = _run(exe, ['search', it['oracle'], '0', str(it['cases']), skip], timeout=600)
+        row = {'oracle': it['oracle'], 'bound': it['bound'], 'function': it['function'], 'cases': v.get('tried'), 'result': 'no failing case' if v.get('found') is False else 'FAILING CASE'}
+        if v.get('found'):
+            c = v['case']
+            row['counterexample'] = {'oracle': it['oracle'], 'args': c.get('args'), 'observed': c.get('observed'), 'expected': c.get('expected'), 'what': c.get('what'),
+                                     'class': c.get('class'), 'source': 'bounded stand-in: exhaustive enumeration through the real front end'}
+        elif 'found' not in v:
+            row['error'] = json.dumps(v)[:300]
+        rows.append(row)
+    return rows
 
 
 def replay_known(k, root):
